@@ -977,7 +977,64 @@ func (i *Interpreter) ApplyTypeDefaults(obj map[string]interface{}, typeDef Type
 		}
 	}
 
+	// Defaults declared on a nested type apply to nested objects as well:
+	// validation already treats such fields as optional, so without this the
+	// body saw them absent. Lists of objects are filled element by element.
+	for _, field := range typeDef.Fields {
+		value, exists := result[field.Name]
+		if !exists || value == nil {
+			continue
+		}
+		filled, err := i.applyNestedDefaults(value, field.TypeAnnotation, env)
+		if err != nil {
+			return nil, err
+		}
+		result[field.Name] = filled
+	}
+
 	return result, nil
+}
+
+// applyNestedDefaults applies the defaults of the type definition that t names
+// (through `?`, [T] and List[T]) to value; other values are returned as they are.
+func (i *Interpreter) applyNestedDefaults(value interface{}, t Type, env *Environment) (interface{}, error) {
+	switch typ := t.(type) {
+	case OptionalType:
+		return i.applyNestedDefaults(value, typ.InnerType, env)
+	case NamedType:
+		obj, isObj := value.(map[string]interface{})
+		nested, defined := i.typeDefs[typ.Name]
+		if !isObj || !defined {
+			return value, nil
+		}
+		return i.ApplyTypeDefaults(obj, nested, env)
+	case ArrayType:
+		return i.applyNestedDefaultsToList(value, typ.ElementType, env)
+	case GenericType:
+		if named, ok := typ.BaseType.(NamedType); ok && named.Name == "List" && len(typ.TypeArgs) == 1 {
+			return i.applyNestedDefaultsToList(value, typ.TypeArgs[0], env)
+		}
+	}
+	return value, nil
+}
+
+func (i *Interpreter) applyNestedDefaultsToList(value interface{}, elem Type, env *Environment) (interface{}, error) {
+	list, isList := value.([]interface{})
+	if !isList || elem == nil {
+		return value, nil
+	}
+	out := make([]interface{}, len(list))
+	for idx, item := range list {
+		if item == nil {
+			continue
+		}
+		filled, err := i.applyNestedDefaults(item, elem, env)
+		if err != nil {
+			return nil, err
+		}
+		out[idx] = filled
+	}
+	return out, nil
 }
 
 // executeFunction executes a user-defined function
